@@ -312,6 +312,13 @@ def run(tier='quick'):
     _helpers(prog, chk, V4)
     # verify entry points route to the factory's validator
     _entry(prog, chk, V4)
+    V10 = chk.rule('V10', 'the listing helper behind every master-list comparison selects sqlite_master by object type alone: '
+                          'a further predicate (a name pattern such as NOT LIKE \'sqlite_stat%\') hides extra objects '
+                          'from verify()', floor=2)
+    from . import extra
+    from .. import callgraph as _cgm, effects as _effm
+    _cg = _cgm.get(prog)
+    extra.catalog_listing_unfiltered(prog, _cg, _effm.Effects(prog, _cg), chk, V10)
     return chk.finish(
         'Every expectation block reachable from the final verify() overrider of each of the %d schema '
         'classes (%d blocks; helper parameters bound to call-site literals) is read from the clang AST, '
